@@ -33,10 +33,10 @@ def regen():
     """Run the translators: /repo sources -> coq/gen/*.v (rewritten only when changed)."""
     msgs = []
     ok = True
-    for tool in ("gen_consts.py", "gen_tables.py", "gen_census.py"):
+    enabled = os.path.join(VERIF, "tools", "TRANSLATORS")
+    tools = open(enabled).read().split() if os.path.exists(enabled) else []
+    for tool in tools:
         path = os.path.join(VERIF, "tools", tool)
-        if not os.path.exists(path):
-            continue
         rc, out = sh([sys.executable, path], timeout=300)
         if rc != 0:
             ok = False
